@@ -19,13 +19,13 @@ Lemma f_gk : exists t, cp_grpc_knock_timer gen_crash_params = Some t /\ 0 <= t <
    within 5 s (the broker timers) plus two OS delays [eps] (socket/pipe closure and exit notification: ASSUMED bounded) *)
 Theorem C03_calls_return_partial : forall pr o eps tstart, 0 <= eps -> 0 <= tstart ->
   exists b, op_bound gen_crash_params eps tstart pr o = Some b /\ 0 <= b <= 1000 * 5 + 2 * eps.
-Proof. exact (calls_bounded gen_crash_params f_done f_eof f_cancel 5 f_ma f_gd f_gk). Qed.
+Proof. exact (calls_bounded gen_crash_params f_eof 5 f_ma f_gd f_gk). Qed.
 Print Assumptions C03_calls_return_partial.
 
 (* a plugin that dies before or during the handshake ends Start at once, whatever the StartTimeout *)
 Theorem C03_start_does_not_wait_for_timeout : forall pr eps tstart, 0 <= eps -> 0 <= tstart ->
   exists b, op_bound gen_crash_params eps tstart pr OStart = Some b /\ b <= eps.
-Proof. exact (start_returns_at_once gen_crash_params f_done f_eof f_cancel). Qed.
+Proof. exact (start_returns_at_once gen_crash_params f_eof). Qed.
 
 (* for every history of host calls: behaviour the outcome table accepts satisfies the property -- every call returned in
    time, and every call issued after the death that needed the plugin returned an error *)
